@@ -147,7 +147,9 @@ class Frame:
         self.handled = []      # stack of currently handled exceptions (for bare raise)
 
 
-FEAS_TIMEOUT_MS = 3000
+import os as _os
+NL_FEAS_TIMEOUT_MS = int(_os.environ.get("PYVC_NL_FEAS_MS", "250"))
+FEAS_TIMEOUT_MS = int(_os.environ.get("PYVC_FEAS_MS", "3000"))
 
 
 class Interp:
@@ -155,6 +157,8 @@ class Interp:
         self.world = world             # World: sources, contracts, classes (see vc.py)
         self.cids = world.cids
         self.solver = z3.Solver()
+        self.lin_solver = z3.Solver()       # nonlinear arithmetic off: its `unsat` is sound and fast
+        self.no_float_overflow = False
         self.stats = {'feas_checks': 0, 'feas_time': 0.0}
         self.reset(Path([]))
 
@@ -174,10 +178,16 @@ class Interp:
         self.quant_depth = 0
         self.mode = 'code'       # 'code' or 'spec'
         self.known = []          # (term, constructor form) learnt from the path condition
+        self.axioms = []         # unconditional facts (instances of assumed view axioms); survive guarded evaluation
         self.solver_ids = []
         self.solver.reset()
         self.solver.set('timeout', FEAS_TIMEOUT_MS)
+        self.lin_ids = []
+        self.lin_solver.reset()
+        self.lin_solver.set('timeout', FEAS_TIMEOUT_MS)
+        self.lin_solver.set('smt.arith.nl', False)
         self.probe = 0
+        self.nonlinear = False      # set when a product / quotient of two symbolic reals enters the path condition
 
     def snapshot(self):
         return (dict(self.frames[-1].env) if self.frames else None, dict(self.heap), list(self.pc),
@@ -209,6 +219,12 @@ class Interp:
             c = stack.pop()
             if z3.is_and(c):
                 stack.extend(c.children())
+            elif z3.is_eq(c) and c.arg(0).sort() == Val:
+                l, r = c.arg(0), c.arg(1)
+                if vals.tag_of(l) is None and vals.tag_of(r) is not None and z3.is_const(l):
+                    new.append((l, r))
+                elif vals.tag_of(r) is None and vals.tag_of(l) is not None and z3.is_const(r):
+                    new.append((r, l))
             elif z3.is_app(c) and c.decl().kind() == z3.Z3_OP_DT_IS and c.arg(0).sort() == Val:
                 t = c.arg(0)
                 if vals.tag_of(t) is not None:
@@ -234,7 +250,7 @@ class Interp:
             self.pc[:] = pc2
             for tpl in new:
                 # keep the fact itself (the substitution turned it into `true`)
-                self.pc.append(tpl[0] == tpl[1])
+                self.pc.append(tpl[0] == z3.substitute(tpl[1], *[x for x in new if x is not tpl]) if len(new) > 1 else tpl[0] == tpl[1])
             for fr in self.frames:
                 for nme, v in fr.env.items():
                     if isinstance(v, SV):
@@ -252,14 +268,19 @@ class Interp:
         return SV(self.fresh(name, Val), ty)
 
     # ------------------------------------------------------- path control
+    def assume_axiom(self, f):
+        f = simp(f)
+        if not z3.is_true(f) and not any(f.eq(x) for x in self.axioms):
+            self.axioms.append(f)
+
     def sync_solver(self):
-        """keep the incremental solver's assertions equal to the path condition"""
-        ids = [p.get_id() for p in self.pc]
+        """keep the incremental solver's assertions equal to axioms + path condition"""
+        ids = [p.get_id() for p in self.axioms + self.pc]
         if self.solver_ids != ids[:len(self.solver_ids)]:
             self.solver.reset()
             self.solver.set('timeout', FEAS_TIMEOUT_MS)
             self.solver_ids = []
-        for p in self.pc[len(self.solver_ids):]:
+        for p in (self.axioms + self.pc)[len(self.solver_ids):]:
             self.solver.add(p)
         self.solver_ids = ids
 
@@ -270,13 +291,32 @@ class Interp:
         if z3.is_false(c):
             return False
         t0 = time.time()
-        self.sync_solver()
-        self.solver.push()
+        # stage 1: linear view (products uninterpreted) - an `unsat` here is final
+        ids = [p.get_id() for p in self.axioms + self.pc]
+        if self.lin_ids != ids[:len(self.lin_ids)]:
+            self.lin_solver.reset()
+            self.lin_solver.set('timeout', FEAS_TIMEOUT_MS)
+            self.lin_solver.set('smt.arith.nl', False)
+            self.lin_ids = []
+        for p in (self.axioms + self.pc)[len(self.lin_ids):]:
+            self.lin_solver.add(p)
+        self.lin_ids = ids
+        self.lin_solver.push()
         try:
-            self.solver.add(c)
-            r = self.solver.check()
+            self.lin_solver.add(c)
+            r = self.lin_solver.check()
         finally:
-            self.solver.pop()
+            self.lin_solver.pop()
+        if r != z3.unsat and self.nonlinear:
+            # stage 2: full (nonlinear) solver under a short budget; undecided counts as feasible
+            self.sync_solver()
+            self.solver.push()
+            try:
+                self.solver.set('timeout', NL_FEAS_TIMEOUT_MS)
+                self.solver.add(c)
+                r = self.solver.check()
+            finally:
+                self.solver.pop()
         self.stats['feas_checks'] += 1
         self.stats['feas_time'] += time.time() - t0
         return r != z3.unsat
@@ -377,7 +417,7 @@ class Interp:
             o.solver = 'simplifier'
             self.obligations.append(o)
             return
-        self.obligations.append(Obligation(name, self.pc, g, kind, self.pathname(), line, dict(self.inputs)))
+        self.obligations.append(Obligation(name, self.axioms + self.pc, g, kind, self.pathname(), line, dict(self.inputs)))
 
     def pathname(self):
         import hashlib
@@ -765,6 +805,7 @@ class Interp:
         """evaluate expr with `guard` temporarily assumed; no fork may happen
         (probe mode); the path condition is restored afterwards"""
         snap_pc, snap_known = list(self.pc), list(self.known)
+        snap_envs = [dict(fr.env) for fr in self.frames]
         self.probe += 1
         try:
             self.pc.append(guard)
@@ -774,6 +815,9 @@ class Interp:
             self.probe -= 1
             self.pc[:] = snap_pc
             self.known = snap_known
+            # facts learnt under the guard must not leak into the variables
+            for fr, env in zip(self.frames, snap_envs):
+                fr.env = env
 
     def try_pure(self, guard, expr):
         """evaluate expr under the temporary assumption `guard` without forking;
@@ -802,6 +846,13 @@ class Interp:
                 self.counter = counter
                 del self.fresh_log[nfresh:]
 
+    def _combine_bool(self, isand, lt, left, right):
+        from .ops import ctor
+        if ctor(left.t) == 'BoolV' and ctor(right.t) == 'BoolV':
+            lb, rb = left.t.arg(0), right.t.arg(0)
+            return SV(V.BoolV(simp(z3.And(lb, rb) if isand else z3.Or(lb, rb))))
+        return SV(simp(z3.If(lt, right.t, left.t) if isand else z3.If(lt, left.t, right.t)))
+
     def ex_BoolOp(self, e):
         # short-circuit with python value semantics.  In spec clauses a two-operand and/or whose
         # right operand evaluates without forking is combined into one if-then-else term
@@ -818,14 +869,14 @@ class Interp:
                         p.pos += 1
                         if marker == -1:
                             right = self.eval_guarded(guard, e.values[1])
-                            return SV(simp(z3.If(lt, right.t, left.t) if isand else z3.If(lt, left.t, right.t)))
+                            return self._combine_bool(isand, lt, left, right)
                     else:
                         pos0 = p.pos
                         right = self.try_pure(guard, e.values[1])
                         if right is not None:
                             p.script.insert(pos0, -1)
                             p.pos += 1
-                            return SV(simp(z3.If(lt, right.t, left.t) if isand else z3.If(lt, left.t, right.t)))
+                            return self._combine_bool(isand, lt, left, right)
                         p.script.append(-2)
                         p.pos += 1
             t = self.truth(left, f'boolop@{e.lineno}')
